@@ -328,6 +328,59 @@ def gen_grid_random(rng):
     return _grid_case(layouts, offsets, only_snvs=only, chromosomes=chroms, indel_slots=indel, tag="grid_random")
 
 
+# ---- one chromosome, 3-4 mutually interleaved phase sets
+MULTI_PS = {"a": 10, "b": 20, "c": 30, "d": 40}
+
+
+def _canonical_strings(L, kmax):
+    """restricted-growth strings: every way to distribute L slots over <= kmax phase sets, up to renaming the sets"""
+    out = []
+
+    def rec(prefix, used):
+        if len(prefix) == L:
+            out.append(prefix)
+            return
+        for j in range(min(used + 1, kmax)):
+            rec(prefix + "abcd"[j], max(used, j + 1))
+    rec("", 0)
+    return out
+
+
+def _multi_case(layout, positions=None, tag="multi"):
+    hdr = ["##fileformat=VCFv4.2", "##contig=<ID=chr1,length=5000>",
+           '##FORMAT=<ID=GT,Number=1,Type=String,Description="Genotype">',
+           '##FORMAT=<ID=PS,Number=1,Type=Integer,Description="Phase set">',
+           "#CHROM\tPOS\tID\tREF\tALT\tQUAL\tFILTER\tINFO\tFORMAT\tS1"]
+    lines = []
+    for k, sym in enumerate(layout):
+        pos = positions[k] if positions else 100 * (k + 1)
+        call = {"u": "0/1:.", "h": "1/1:."}.get(sym) or f"0|1:{MULTI_PS[sym]}"
+        lines.append(f"chr1\t{pos}\t.\tA\tC\t.\t.\t.\tGT:PS\t{call}")
+    return {"vcf": "\n".join(hdr + lines) + "\n", "sample": None, "only_snvs": False, "chromosomes": None,
+            "indexed": False, "tags": {tag: True, "ploidy": 2, "miss": False}}
+
+
+def gen_multi_exhaustive(lengths, kmax):
+    """every assignment of L slots (L in lengths) to <= kmax phase sets (up to renaming) in which at least two sets
+    have >= 2 members: all interleavings / nestings of up to kmax sets"""
+    for L in lengths:
+        for lay in _canonical_strings(L, kmax):
+            if sum(1 for c in set(lay) if lay.count(c) >= 2) >= 2:
+                yield _multi_case(lay, tag="multi_exhaustive")
+
+
+def gen_multi_random(rng):
+    L = rng.randint(6, 10)
+    k = rng.choice([3, 3, 4])
+    alpha = "abcd"[:k] + rng.choice(["", "", "u", "uh"])
+    lay = "".join(rng.choice(alpha) for _ in range(L))
+    pos, p = [], rng.randint(1, 60)
+    for _ in range(L):
+        pos.append(p)
+        p += rng.choice([1, 10, 50, 100, 400])
+    return _multi_case(lay, pos, tag="multi_random")
+
+
 # ------------------------------------------------------------------------------------------------ abstraction
 def unpack_chromosomes(chromosomes):
     out = []
@@ -491,6 +544,28 @@ def o_counted(only_snvs, recs):
     return out
 
 
+def o_pieces(sets):
+    """lengths of the non-overlapping pieces of the phase sets with >= 2 members (position lists): the leftmost
+    block is cut at the start of the next one; what lies behind the end of that one goes back into the queue"""
+    import bisect
+    queue = sorted([sorted(v) for v in sets if len(v) >= 2], key=lambda b: b[0])
+    out = []
+    while queue:
+        b = queue.pop(0)
+        if queue and b[-1] > queue[0][0]:
+            nxt = queue[0]
+            left = [p for p in b if p < nxt[0]]
+            right = [p for p in b if p > nxt[-1]]
+            if len(right) >= 2:
+                keys = [q[0] for q in queue]
+                queue.insert(bisect.bisect_right(keys, right[0]), right)
+            if len(left) >= 2:
+                out.append(left[-1] - left[0])
+        else:
+            out.append(b[-1] - b[0])
+    return out
+
+
 def o_spec(only_snvs, recs):
     cs = o_counted(only_snvs, recs)
     hs = [r for r in cs if o_het(r)]
@@ -508,6 +583,7 @@ def o_spec(only_snvs, recs):
                 singletons=sum(1 for v in sets.values() if len(v) == 1), blocks=len(big),
                 vmin=min(sizes) if sizes else 0, vmax=max(sizes) if sizes else 0, phsnv=sum(r["snv"] for r in ph),
                 span=(max(ppos) - min(ppos)) if ppos else 0,
+                pieces=o_pieces([[r["pos"] for r in v] for v in sets.values()]),
                 bl=[(k, min(r["pos"] for r in v) + 1, max(r["pos"] for r in v) + 1, len(v)) for k, v in sorted(sets.items())])
 
 
@@ -535,6 +611,9 @@ def oracle_l1(only_snvs, groups, given, ids, out):
                  s["vmin"], s["vmax"], s["phsnv"]):
             return False
         if not (0 <= d["bp_per_block_min"] <= d["bp_per_block_max"] <= d["bp_per_block_sum"] <= s["span"]):
+            return False
+        pc = s["pieces"]
+        if (d["bp_per_block_min"], d["bp_per_block_max"], d["bp_per_block_sum"]) != ((min(pc), max(pc), sum(pc)) if pc else (0, 0, 0)):
             return False
         if bl != s["bl"]:
             return False
